@@ -655,7 +655,7 @@ fn prng_round(rng: &mut Rng, out: &mut Out, big: bool, emit_cases: bool) {
 pub fn run(tier: &str, seed: u64, out: &mut Out) {
     let mut rng = Rng::new(seed ^ 0xC15);
     let (rounds, big_rounds, prng_rounds, emit) = match tier {
-        "thorough" => (80, 24, 420, true),
+        "thorough" => (120, 36, 600, true),
         "search" => (600, 60, 3000, false),
         _ => (14, 5, 60, true),
     };
